@@ -173,11 +173,16 @@ def _document(ctx):
     except AnalysisError as e:
         ctx.error('C01.D5', str(e))
         return
-    joins = [norm(n) for n in walk_no_nested(fn) if isinstance(n, ast.Return)]
-    want = "return '\\n'.join(map(_dump, grids))"
-    if want in joins:
-        ctx.ob('C01.D5', 'several grids are joined with one newline (each grid ends with a newline: a blank line)', True,
-               '%s:%d' % (FD, fn.lineno))
+    from . import _dump
+    try:
+        r = _dump.document_shaping(m)
+    except (AnalysisError, Unsupported) as e:
+        ctx.error('C01.D5', 'dump(): %s' % e)
+        return
+    forms = r['zinc_multi']
+    if forms == {'ZJOIN'} and not [c for c in r['extra'].get(('zinc_multi', 'ZJOIN'), []) if 'len(' in c[0]]:
+        ctx.ob('C01.D5', 'several grids are joined with one newline (each grid ends with a newline: a blank line); '
+                         '%d returning paths of dump()' % r['n_paths'], True, '%s:%d' % (FD, fn.lineno))
         try:
             sep = m.const('parser', 'GRID_SEP')
             pr = L.PyRegex(sep.pattern, sep.flags)
@@ -194,10 +199,15 @@ def _document(ctx):
         except (Unsupported, AttributeError) as e:
             ctx.error('C01.D5', 'GRID_SEP: %s' % e)
     else:
-        zj = [j for j in joins if 'join' in j and 'MODE' not in j]
-        ctx.violation('C01.D5', '%s::dump' % FD, '; '.join(joins)[:200],
-                      'dump([g1, g2], MODE_ZINC) does not separate the grids by exactly one blank line',
-                      'the ZINC multi-grid join is not `\\n`.join(...)', file=FD, line=fn.lineno, engine='E9')
+        bad = sorted(f for f in forms if f != 'ZJOIN') or sorted(forms)
+        node = r['nodes'].get(('zinc_multi', bad[0]), fn) if bad else fn
+        if bad and bad[0].startswith('JOIN:') or (bad and bad[0] in ('ELEM', 'ONE', 'JARR')):
+            ctx.violation('C01.D5', '%s::dump' % FD, norm(node)[:200],
+                          'dump([g1, g2], MODE_ZINC) does not separate the grids by exactly one blank line (form %s)' % bad[0],
+                          'the ZINC multi-grid join is not `\\n`.join(<all grids>)', file=FD, line=node.lineno, engine='E6')
+        else:
+            ctx.error('C01.D5', 'dump(): ZINC multi-grid result has forms %s under extra conditions %s; cannot decide'
+                      % (sorted(forms), r['extra'].get(('zinc_multi', 'ZJOIN'))))
 
 
 def _assembly(ctx):
@@ -220,13 +230,12 @@ def _assembly(ctx):
             'rows are rebuilt by zipping each cell list onto the column names in order',
             'cells come back under the wrong column names')
     sc.need(['return _R_g'], 'the assembled grid is the parse result', 'the parse result is not the assembled grid')
-    t2 = [norm(x) for x in body_wo_doc(av)]
-    if "grid_meta.add_item('ver', ver, index=0)" in t2 and 'return grid_meta' in t2:
-        ctx.ob('C01.D6', '_assign_ver stores the version under "ver" (popped again by _gen_grid)', True,
-               '%s:%d' % (FP, av.lineno))
-    else:
-        ctx.violation('C01.D6', '%s::_assign_ver' % FP, '; '.join(t2), 'the parsed grid loses its version',
-                      '_assign_ver no longer stores ver in the metadata it returns', file=FP, line=av.lineno, engine='E9')
+    sv = match.Script(ctx, 'C01.D6', [av], FP, '%s::_assign_ver' % FP)
+    sv.seed('toks', av.args.args[0].arg)
+    sv.need(['_R_ver = _R_toks[0]'], '_assign_ver takes the version from the first token', 'the parsed grid gets another version')
+    sv.need(["_R_meta.add_item('ver', _R_ver, index=0)", "_R_meta['ver'] = _R_ver"],
+            '_assign_ver stores the version under "ver" (popped again by _gen_grid)', 'the parsed grid loses its version')
+    sv.need(['return _R_meta'], '_assign_ver returns the metadata carrying the version', 'the parsed grid loses its version')
     # column line: each column is (id, meta or {})
     g = G.grammar_of(m, 'zincparser')
     for ver in ('2.0', '3.0'):
